@@ -197,6 +197,16 @@ class Parser(object):
                       | struct_def
                       | union_def'''
 
+    def _declare_included(self, decls, node, t):
+        """ The same file may arrive through several includes; another definition of the name is a redefinition. """
+        known = self.typedecls.get(node.name, self.constdecls.get(node.name))
+        self._parser_check(
+            known is None or known is node,
+            "name '{}' redefined".format(node.name),
+            t.lineno(3), t.lexpos(3)
+        )
+        decls[node.name] = node
+
     def p_include_def(self, t):
         """include_def : '#' ID PATH"""
         self._parser_check(
@@ -216,12 +226,12 @@ class Parser(object):
 
         for node in nodes:
             if isinstance(node, model.Constant):
-                self.constdecls[node.name] = node
+                self._declare_included(self.constdecls, node, t)
             if isinstance(node, model.Enum):
                 for mem in node.members:
-                    self.constdecls[mem.name] = mem
+                    self._declare_included(self.constdecls, mem, t)
             if isinstance(node, (model.Typedef, model.Enum, model.Struct, model.Union)):
-                self.typedecls[node.name] = node
+                self._declare_included(self.typedecls, node, t)
 
         node = model.Include(stem, nodes)
         self.nodes.append(node)
